@@ -10,8 +10,11 @@ package trzsz
 // (TransferObs): results, time to return, what is left at the destination, goroutines left.
 
 import (
+	"os"
+	"strconv"
 	"strings"
 	"sync"
+	"syscall"
 	"time"
 )
 
@@ -36,7 +39,7 @@ func e2eInstallPoint(pt *e2ePoint, run int, tr *vTrace, w *e2eWire, client func(
 	f *TrzszFilter, dataDir string, emitLive func(map[string]any, func()) bool, stopAt *time.Time, addPause func(), setPaused func(bool),
 	over <-chan struct{}) (didFire func() bool) {
 	var mu sync.Mutex
-	count := 0
+	count, total := 0, 0
 	fired := false
 	happened := false
 	didFire = func() bool {
@@ -56,7 +59,10 @@ func e2eInstallPoint(pt *e2ePoint, run int, tr *vTrace, w *e2eWire, client func(
 		}
 		mu.Lock()
 		count++
-		hit := !fired && count == pt.Nth
+		if len(args) > 0 {
+			total += args[0]
+		}
+		hit := !fired && ((pt.Total == 0 && count == pt.Nth) || (pt.Total > 0 && total == pt.Total))
 		if hit {
 			fired = true
 		}
@@ -100,6 +106,10 @@ func e2eInstallPoint(pt *e2ePoint, run int, tr *vTrace, w *e2eWire, client func(
 				}
 				w.mu.Unlock()
 			})
+		case "dstfull":
+			// the destination runs full under the open file: its descriptor now refers to /dev/full, the next write fails
+			*stopAt = time.Now()
+			emitLive(map[string]any{"e": "fault", "run": run, "at": pt.Name, "kind": "dstfull"}, func() { e2eFillDestination(e2ePointDst) })
 		case "stopC", "stopCdel", "stopV":
 			*stopAt = time.Now()
 			emitLive(map[string]any{"e": "stop", "run": run, "g": -1, "phase": "at:" + pt.Name, "role": pt.Kind[4:5], "del": pt.Kind == "stopCdel"}, func() {
@@ -145,3 +155,31 @@ var e2ePointSender = []string{"pipeline.read", "pipe.rd.put", "pipe.md.got", "pi
 	"pipe.enc.wait", "pipe.snd.got", "pipe.snd.ack", "pipe.ack.got", "pipe.ack.final", "pipe.ack.succ", "pipe.main.select"}
 var e2ePointReceiver = []string{"pipe.rcv.read", "pipe.rcv.ack", "pipe.rcv.put", "pipe.sack.got", "pipe.sack.final", "pipe.sack.succ",
 	"pipe.dec.read", "pipe.dec.put", "pipe.md.got", "pipe.md.sum", "pipe.sav.got", "pipe.sav.done", "pipe.rmain.select"}
+
+var e2ePointDst string
+
+// e2eFillDestination: every regular file this process holds open under root gets the descriptor of /dev/full (dup2):
+// what has been written stays, every further write fails with ENOSPC, as on a file system that has just run full.
+func e2eFillDestination(root string) int {
+	full, err := syscall.Open("/dev/full", syscall.O_WRONLY, 0)
+	if err != nil {
+		return 0
+	}
+	defer syscall.Close(full)
+	ents, _ := os.ReadDir("/proc/self/fd")
+	n := 0
+	for _, e := range ents {
+		fd, err := strconv.Atoi(e.Name())
+		if err != nil || fd == full {
+			continue
+		}
+		link, err := os.Readlink("/proc/self/fd/" + e.Name())
+		if err != nil || !strings.HasPrefix(link, root+"/") {
+			continue
+		}
+		if syscall.Dup2(full, fd) == nil {
+			n++
+		}
+	}
+	return n
+}
